@@ -151,7 +151,28 @@ func (wg *WeightedAuthorizationModelGraph) AssignWeights() error {
 			return fmt.Errorf("%w: %d tuple cycles found without resolution", ErrTupleCycle, len(tupleCyles))
 		}
 	}
-	return nil
+
+	return wg.checkRelationsReachTerminalType()
+}
+
+// checkRelationsReachTerminalType rejects a model in which some relation can reach no terminal type at all,
+// e.g. "define a: a from parent": resolving the tuple cycle leaves such a relation with an empty weight map.
+func (wg *WeightedAuthorizationModelGraph) checkRelationsReachTerminalType() error {
+	labels := make([]string, 0)
+
+	for _, node := range wg.nodes {
+		if node.nodeType == SpecificTypeAndRelation && len(node.weights) == 0 {
+			labels = append(labels, node.uniqueLabel)
+		}
+	}
+
+	if len(labels) == 0 {
+		return nil
+	}
+
+	slices.Sort(labels)
+
+	return fmt.Errorf("%w: %s node does not have any terminal type to reach to", ErrInvalidModel, labels[0])
 }
 
 // hasRewriteOnlyCycle reports whether some cycle can be traversed without reading any tuple,
